@@ -3,6 +3,7 @@ package hamt
 import (
 	"context"
 	"fmt"
+	"sync"
 
 	bitfield "github.com/ipfs/go-bitfield"
 	"github.com/ipfs/go-unixfsnode/data"
@@ -33,6 +34,10 @@ type _UnixFSHAMTShard struct {
 	bitfield     bitfield.Bitfield
 	shardCache   map[ipld.Link]*_UnixFSHAMTShard
 	cachedLength int64
+
+	// cacheLk guards shardCache and cachedLength, which are filled lazily by
+	// otherwise read-only operations that may run concurrently
+	cacheLk sync.Mutex
 }
 
 // NewUnixFSHAMTShard attempts to construct a UnixFSHAMTShard node from the base protobuf node plus
@@ -148,7 +153,9 @@ func AttemptHAMTShardFromNode(ctx context.Context, nd ipld.Node, lsys *ipld.Link
 }
 
 func (n UnixFSHAMTShard) loadChild(pbLink dagpb.PBLink) (UnixFSHAMTShard, error) {
+	n.cacheLk.Lock()
 	cached, ok := n.shardCache[pbLink.FieldHash().Link()]
+	n.cacheLk.Unlock()
 	if ok {
 		return cached, nil
 	}
@@ -164,6 +171,12 @@ func (n UnixFSHAMTShard) loadChild(pbLink dagpb.PBLink) (UnixFSHAMTShard, error)
 	// padded and stripped using it
 	if und.data.FieldFanout().Must().Int() != n.data.FieldFanout().Must().Int() {
 		return nil, ErrFanoutMismatch
+	}
+	n.cacheLk.Lock()
+	defer n.cacheLk.Unlock()
+	if cached, ok := n.shardCache[pbLink.FieldHash().Link()]; ok {
+		// another goroutine loaded the same child in the meantime
+		return cached, nil
 	}
 	n.shardCache[pbLink.FieldHash().Link()] = und
 	return und, nil
@@ -270,8 +283,11 @@ func (n UnixFSHAMTShard) ListIterator() ipld.ListIterator {
 // Length returns the length of a list, or the number of entries in a map,
 // or -1 if the node is not of list nor map kind.
 func (n UnixFSHAMTShard) length() (int64, error) {
-	if n.cachedLength != -1 {
-		return n.cachedLength, nil
+	n.cacheLk.Lock()
+	cachedLength := n.cachedLength
+	n.cacheLk.Unlock()
+	if cachedLength != -1 {
+		return cachedLength, nil
 	}
 	maxPadLen := maxPadLength(n.data)
 	total := int64(0)
@@ -296,7 +312,9 @@ func (n UnixFSHAMTShard) length() (int64, error) {
 			total += cl
 		}
 	}
+	n.cacheLk.Lock()
 	n.cachedLength = total
+	n.cacheLk.Unlock()
 	return total, nil
 }
 
